@@ -304,6 +304,61 @@ where
     }
 }
 
+/// First calls made concurrently (kind "race"): each item is meant to be the ONLY item of its interpreter
+/// process, so that its threads really make the process's first calls into the lazily initialised dispatch
+/// cells. Miri's data-race detector (vector clocks: schedule-insensitive for accesses that both occur) is the
+/// monitor; results are judged as usual.
+fn race_items(items: &mut Vec<Item>) {
+    fn op(name: &'static str) -> Result<(), String> {
+        match name {
+            "cmp12" => {
+                let (a, b) = (value_by_index::<VShort>(0x5a), value_by_index::<VShort>(3 * 256 + 0x33));
+                crate::checks::c02::judge_pair::<VShort>(&a, &b).map(|_| ())
+            }
+            "cmp32" => {
+                let (a, b) = (value_by_index::<VNormal>(0x5a), value_by_index::<VNormal>(3 * 256 + 0x33));
+                crate::checks::c02::judge_pair::<VNormal>(&a, &b).map(|_| ())
+            }
+            "cmp64" => {
+                let (a, b) = (value_by_index::<VLong>(0x5a), value_by_index::<VLong>(3 * 256 + 0x33));
+                crate::checks::c02::judge_pair::<VLong>(&a, &b).map(|_| ())
+            }
+            "fin48" => crate::checks::c01::judge_input::<VShort>(&Stream::Mixed.bytes(0, 60)).map(|_| ()),
+            "fin128" => crate::checks::c01::judge_input::<VNormal>(&Stream::Mixed.bytes(0, 60)).map(|_| ()),
+            "fin256" => crate::checks::c01::judge_input::<VLong>(&Stream::Mixed.bytes(0, 60)).map(|_| ()),
+            "parse" => judge_parse::<VNormal>(&base_strings::<VNormal>()[2]).map(|_| ()),
+            _ => judge_format::<VNormal>(&value_by_index::<VNormal>(0x5a)),
+        }
+    }
+    const OPS: [&str; 8] = ["cmp12", "cmp32", "cmp64", "fin48", "fin128", "fin256", "parse", "format"];
+    let mut groups: Vec<Vec<&'static str>> = Vec::new();
+    for i in 0..OPS.len() {
+        for j in i..OPS.len() {
+            groups.push(vec![OPS[i], OPS[j]]);
+        }
+    }
+    groups.push(vec!["cmp32", "cmp32", "cmp32"]);
+    groups.push(vec!["cmp64", "cmp32", "fin128"]);
+    groups.push(vec!["fin48", "fin128", "fin256"]);
+    groups.push(vec!["cmp32", "cmp64", "cmp12", "fin128"]);
+    for g in groups {
+        // the quick tier runs the same-operation pairs and two mixed groups
+        let kind = if (g.len() == 2 && g[0] == g[1]) || g == ["cmp64", "cmp32", "fin128"] || g == ["fin48", "fin128", "fin256"] { "race-quick" } else { "race" };
+        push(items, kind, format!("first-calls/{}", g.join("+")), move || {
+            let hs: Vec<_> = g.iter().map(|&name| std::thread::spawn(move || catch(|| op(name)))).collect();
+            for (h, name) in hs.into_iter().zip(g.iter()) {
+                match h.join() {
+                    Ok(Ok(Ok(()))) => {}
+                    Ok(Ok(Err(e))) => return Err(format!("{name} (concurrent first call): {e}")),
+                    Ok(Err(p)) => return Err(format!("{name} (concurrent first call) panicked: {p}")),
+                    Err(_) => return Err(format!("{name}: thread died")),
+                }
+            }
+            Ok(())
+        });
+    }
+}
+
 pub fn items(depth: usize) -> Vec<Item> {
     let mut v = Vec::new();
     per_variant::<VShort>(&mut v, depth);
@@ -313,6 +368,7 @@ pub fn items(depth: usize) -> Vec<Item> {
     per_variant::<VLongLC>(&mut v, depth);
     #[cfg(fast_tlsh_verif)]
     backend_items(&mut v, depth);
+    race_items(&mut v);
     #[cfg(feature = "serde")]
     {
         serde_items::<VShort>(&mut v, depth);
@@ -328,8 +384,10 @@ pub fn items(depth: usize) -> Vec<Item> {
 pub fn run(depth: usize, k: usize, n: usize, only: Option<usize>, list: bool, kinds: Option<&str>) -> Value {
     quiet_panics();
     let mut items = items(depth);
-    if let Some(ks) = kinds {
-        items.retain(|it| ks.split(',').any(|x| x == it.kind));
+    match kinds {
+        Some(ks) => items.retain(|it| ks.split(',').any(|x| x == it.kind)),
+        // "race" items only make sense one per process: they run when asked for by kind
+        None => items.retain(|it| !it.kind.starts_with("race")),
     }
     let mut ran = 0u64;
     let mut by_kind: HashMap<&'static str, u64> = HashMap::new();
